@@ -150,7 +150,37 @@ func runMapProtocolOn(c *Ctx, prefix, pkgRel, namePfx string, full bool) {
 		}
 		mp.paths[fi] = ps
 		if len(fi.Closures) > 0 {
-			R.Unproven(mp.rule("guarded-by"), fi.Name, "closures", c.pos(fi), "the map implementation uses closures; lock regions are not tracked across them")
+			// lock regions are not tracked across closures: fine as long as the closures stay out of the map's internals
+			// (a counting callback handed to Range); one that touches a guarded field or the mutex cannot be judged
+			touches := ""
+			guardedF := []*types.Var{mp.fMu, mp.fRead, mp.fDirty, mp.fMiss, mp.fP, mp.fROm, mp.fROam}
+			for _, cl := range fi.Closures {
+				for _, b := range cl.Blocks {
+					for _, in := range b.Instrs {
+						var fld *types.Var
+						switch x := in.(type) {
+						case *ssa.FieldAddr:
+							if pt, isP := x.X.Type().Underlying().(*types.Pointer); isP {
+								if st, isS := pt.Elem().Underlying().(*types.Struct); isS {
+									fld = st.Field(x.Field)
+								}
+							}
+						case *ssa.Field:
+							if st, isS := x.X.Type().Underlying().(*types.Struct); isS {
+								fld = st.Field(x.Field)
+							}
+						}
+						for _, f := range guardedF {
+							if fld != nil && sameField(fld, f) {
+								touches = f.Name()
+							}
+						}
+					}
+				}
+			}
+			if touches != "" {
+				R.Unproven(mp.rule("guarded-by"), fi.Name, "closures", c.pos(fi), "a closure of the map implementation touches "+touches+"; lock regions are not tracked across closures")
+			}
 		}
 	}
 	// helpers returning a fresh snapshot of the read map (e.g. loadReadOnly): every returning path yields the
@@ -911,7 +941,9 @@ func (mp *mapProto) promoteOnlyAmended() {
 			for i := range p.Events {
 				e := &p.Events[i]
 				if e.Kind == "call" {
-					if callee := c.P.BySSA[e.SSAFn]; callee != nil && e.SSAFn == callee.SSA && promoters[callee] && callee != fi {
+					// a promoting helper that relies on its caller's lock is judged here, at the call; one that takes the lock
+					// itself (Range) establishes the condition inside and is judged there
+					if callee := c.P.BySSA[e.SSAFn]; callee != nil && e.SSAFn == callee.SSA && promoters[callee] && callee != fi && mp.needs[callee] != "" {
 						check(i, "call-"+callee.Obj.Name(), e.Instr)
 					}
 				}
@@ -1535,6 +1567,48 @@ func (mp *mapProto) dirtySuperset() {
 						return true
 					})
 				}
+				// ... or the read map is known to be empty: an empty snapshot was published under this lock before the
+				// delete (a Clear), or the snapshot re-read under this lock has length 0
+				for j := lockIdx + 1; j < i && j >= 0 && !good; j++ {
+					f := &p.Events[j]
+					if f.Kind == "call" && isAtomicStoreName(f.Name) && isFieldAddr(f.Args[0], mp.fRead, nil) {
+						if m, _, okS := mp.snapshotStored(p, j); okS && (m == nil || m.IsNil() || m.Op == "zero") {
+							good = true
+						}
+						if len(f.Args) == 2 && stripIface(f.Args[1]).Op == "zero" {
+							good = true // the zero snapshot: no map at all
+						}
+					}
+				}
+				for _, cd := range p.Conds {
+					if good || cd.NEv > i {
+						continue
+					}
+					r := cd.Rel()
+					if r.B == nil {
+						continue
+					}
+					isLenFresh := func(t *Term) bool {
+						if t == nil || t.Op != "builtin" || t.Sym != "len" || len(t.Args) != 1 {
+							return false
+						}
+						m := t.Args[0]
+						if !(m.Op == "field" && sameField(m.Obj, mp.fROm)) {
+							return false
+						}
+						fresh := false
+						m.Walk(func(x *Term) bool {
+							if idx, ok := snaps[x.Key()]; ok && idx > lockIdx {
+								fresh = true
+							}
+							return true
+						})
+						return fresh
+					}
+					if (isLenFresh(r.A) && r.B.IsConst("0") && (r.Op == "==" || r.Op == "<=")) || (isLenFresh(r.B) && r.A.IsConst("0") && (r.Op == "==" || r.Op == ">=")) {
+						good = true
+					}
+				}
 				if !good {
 					s.ok = false
 				}
@@ -1758,6 +1832,24 @@ func (mp *mapProto) effectCompleteness() {
 				if e.Kind == "mapupdate" && mp.isDirtyMap(p, e.Addr) && e.Val.Op == "call" && strings.HasSuffix(e.Val.Sym, ".newEntry") && len(e.Val.Args) == 1 && isParamOrSpill(p, e.Val.Args[0], 2) && isParam(e.Key, 1) {
 					stored = true
 				}
+				// an entry built in place whose word points at the (heap-allocated) value parameter: newEntry written out
+				if e.Kind == "mapupdate" && mp.isDirtyMap(p, e.Addr) && e.Val.Op == "alloc" && isParam(e.Key, 1) {
+					for j := 0; j < i; j++ {
+						f := &p.Events[j]
+						if f.Kind == "store" && isFieldAddr(f.Addr, mp.fP, e.Val) {
+							v := stripConv(f.Val)
+							for v != nil && (v.Op == "conv" || v.Op == "call" && strings.HasSuffix(v.Sym, "unsafe.Pointer")) && len(v.Args) == 1 {
+								v = v.Args[0]
+							}
+							if v != nil && v.Op == "alloc" {
+								// the cell the value parameter was spilled to
+								if ld := (&Term{Op: "load", Args: []*Term{v}}); isParamOrSpill(p, ld, 2) {
+									stored = true
+								}
+							}
+						}
+					}
+				}
 			}
 			if !stored {
 				ok, why = false, "a path of Store returns without having stored the value: "+p.CondString()
@@ -1840,11 +1932,13 @@ func (mp *mapProto) effectCompleteness() {
 }
 
 func isAtomicLoadName(n string) bool {
-	return strings.HasSuffix(n, "atomic.(*Value).Load") || strings.HasSuffix(n, "atomic.(*Pointer).Load")
+	// sync2.AtomicValue is the library's own typed wrapper of atomic.Value (property C18; when the map uses it the
+	// dependency closure runs C18's rules on the wrapper's methods)
+	return strings.HasSuffix(n, "atomic.(*Value).Load") || strings.HasSuffix(n, "atomic.(*Pointer).Load") || n == "sync2.(*AtomicValue).Load"
 }
 
 func isAtomicStoreName(n string) bool {
-	return strings.HasSuffix(n, "atomic.(*Value).Store") || strings.HasSuffix(n, "atomic.(*Pointer).Store")
+	return strings.HasSuffix(n, "atomic.(*Value).Store") || strings.HasSuffix(n, "atomic.(*Pointer).Store") || n == "sync2.(*AtomicValue).Store"
 }
 
 // entryOpKind classifies an atomic operation on a pointer word by its name (package-level functions and atomic.Pointer methods).
